@@ -169,6 +169,10 @@ type Exec struct {
 	parent  *Exec
 	lemmaName string
 	initDepth int
+	outerEnv  *SpecEnv
+	refWrites map[string]map[string]bool // during loop discovery: heap array -> refs it is updated at ("*" = unknown)
+	freshRefs map[string]bool            // during loop discovery: reference terms allocated inside the loop
+	loopRefs  map[string][]Term          // result of the last discovery: per heap array, the loop-invariant refs written
 }
 
 func (x *Exec) markA(reason string) {
@@ -213,9 +217,56 @@ func (x *Exec) getSV(name, sortName string) Term {
 }
 
 func (x *Exec) setSV(name, sortName string, t Term) {
-	x.getSV(name, sortName) // make sure the initial version exists (for old())
+	cur := x.getSV(name, sortName) // make sure the initial version exists (for old())
 	x.written[name] = true
+	// remember at which reference a heap array is updated (used to frame loops):
+	// an update has the shape (store <current> <ref> <row>)
+	if x.refWrites != nil {
+		ref := "*"
+		if p := "(store " + cur + " "; strings.HasPrefix(t, p) {
+			if r, ok := firstSExpr(t[len(p):]); ok {
+				ref = simplifyRef(r)
+			}
+		}
+		if x.refWrites[name] == nil {
+			x.refWrites[name] = map[string]bool{}
+		}
+		x.refWrites[name][ref] = true
+	}
 	x.st[name] = x.smt.define(name, sortName, t)
+}
+
+// firstSExpr returns the first s-expression (atom or balanced list) of s.
+func firstSExpr(s string) (string, bool) {
+	if s == "" {
+		return "", false
+	}
+	if s[0] != '(' {
+		i := strings.IndexAny(s, " )")
+		if i <= 0 {
+			return "", false
+		}
+		return s[:i], true
+	}
+	d := 0
+	for i := 0; i < len(s); i++ {
+		switch s[i] {
+		case '(':
+			d++
+		case ')':
+			d--
+			if d == 0 {
+				return s[:i+1], true
+			}
+		case '|':
+			j := strings.IndexByte(s[i+1:], '|')
+			if j < 0 {
+				return "", false
+			}
+			i += j + 1
+		}
+	}
+	return "", false
 }
 
 func (x *Exec) havocSV(name string) {
@@ -229,6 +280,40 @@ func (x *Exec) havocSV(name string) {
 		x.smt.assume("(>= " + nt + " " + old + ")")
 	}
 	x.written[name] = true
+	if x.refWrites != nil {
+		if x.refWrites[name] == nil {
+			x.refWrites[name] = map[string]bool{}
+		}
+		x.refWrites[name]["*"] = true
+	}
+	x.st[name] = nt
+}
+
+// havocAtRefs: the loop body updates the heap array 'name' only at the given
+// loop-invariant references and at references allocated inside the loop; every other
+// reference that existed at loop entry keeps its row.
+func (x *Exec) havocAtRefs(name string, refs []Term, allocEntry Term) {
+	sortName := x.svSort[name]
+	if sortName == "" {
+		return
+	}
+	old := x.getSV(name, sortName)
+	nt := x.smt.fresh(name, sortName)
+	conds := []Term{"(< r " + allocEntry + ")"}
+	for _, r := range refs {
+		conds = append(conds, "(not (= r "+r+"))")
+	}
+	x.smt.assume(fmt.Sprintf("(forall ((r Int)) (! (=> %s (= (select %s r) (select %s r))) :pattern ((select %s r))))", and(conds...), nt, old, nt))
+	x.written[name] = true
+	if x.refWrites != nil {
+		if x.refWrites[name] == nil {
+			x.refWrites[name] = map[string]bool{}
+		}
+		for _, r := range refs {
+			x.refWrites[name][r] = true
+		}
+		x.refWrites[name]["fresh"] = true
+	}
 	x.st[name] = nt
 }
 
@@ -252,6 +337,9 @@ func (x *Exec) havocMatching(prefixes []string) {
 func (x *Exec) newRef() Term {
 	r := x.getSV("alloc", "Int")
 	x.setSV("alloc", "Int", "(+ "+r+" 1)")
+	if x.freshRefs != nil {
+		x.freshRefs[r] = true
+	}
 	return r
 }
 
@@ -764,8 +852,13 @@ func (x *Exec) enterBlock(b *ssa.BasicBlock, within map[*ssa.BasicBlock]bool) bo
 	}
 	// 2. havoc
 	mods := x.loopModified(b, ord)
+	allocEntry := x.getSV("alloc", "Int")
 	for _, m := range mods {
-		x.havocSV(m)
+		if refs, ok := x.loopRefs[m]; ok {
+			x.havocAtRefs(m, refs, allocEntry)
+		} else {
+			x.havocSV(m)
+		}
 	}
 	for _, ins := range b.Instrs {
 		phi, ok := ins.(*ssa.Phi)
@@ -835,6 +928,7 @@ func (x *Exec) loopInvs(ord int) []NamedExpr {
 // loopModified discovers which state variables the loop body may write, by a
 // throw-away symbolic execution of the body (nothing it emits is kept).
 func (x *Exec) loopModified(h *ssa.BasicBlock, ord int) []string {
+	x.loopRefs = nil
 	if x.c != nil && len(x.c.LoopMods[ord]) > 0 {
 		var out []string
 		for n := range x.svSort {
@@ -883,6 +977,9 @@ func (x *Exec) loopModified(h *ssa.BasicBlock, ord int) []string {
 	x.edges = map[*ssa.BasicBlock][]edge{}
 	x.done = map[*ssa.BasicBlock]bool{}
 	x.written = map[string]bool{}
+	savedRW, savedFR := x.refWrites, x.freshRefs
+	x.refWrites = map[string]map[string]bool{}
+	x.freshRefs = map[string]bool{}
 	x.discovering = true
 	x.safeN = map[string]int{}
 	x.callN = map[string]int{}
@@ -911,6 +1008,33 @@ func (x *Exec) loopModified(h *ssa.BasicBlock, ord int) []string {
 		out = append(out, n)
 	}
 	sort.Strings(out)
+	// per heap array: is it written only at loop-invariant references and at
+	// references allocated inside the loop?
+	x.loopRefs = map[string][]Term{}
+	for _, n := range out {
+		if !isRefKeyed(n) {
+			continue
+		}
+		refs := x.refWrites[n]
+		ok := len(refs) > 0
+		var inv []Term
+		for r := range refs {
+			switch {
+			case r == "*":
+				ok = false
+			case r == "fresh" || x.freshRefs[r]:
+			case mentionsNewer(r, savedFresh):
+				ok = false
+			default:
+				inv = append(inv, r)
+			}
+		}
+		if ok {
+			sort.Strings(inv)
+			x.loopRefs[n] = inv
+		}
+	}
+	x.refWrites, x.freshRefs = savedRW, savedFR
 	// new state variables first touched inside the loop must also be known outside
 	newSorts := x.svSort
 	// restore
@@ -989,6 +1113,29 @@ func (x *Exec) pushEdge(to *ssa.BasicBlock, cond Term, within map[*ssa.BasicBloc
 	x.edges[to] = append(x.edges[to], edge{cond: cond, st: x.st.clone(), pred: from, defers: x.defers})
 }
 
+// specError: a contract clause could not be evaluated against the current code (a
+// variable it names no longer exists, a type changed, ...). Never a silent skip: it
+// becomes one failed obligation per clause.
 func (x *Exec) specError(ne NamedExpr, err error) {
-	x.V.specErrors = append(x.V.specErrors, fmt.Sprintf("%s: %s: %v", x.V.funcKey(x.fn), ne.Name, err))
+	if x.discovering {
+		return
+	}
+	root := x.root()
+	fk := x.V.funcKey(root.fn)
+	if root.fn == nil {
+		fk = root.lemmaName
+	}
+	msg := fmt.Sprintf("%s: %s: %v", fk, ne.Name, err)
+	for _, e := range x.V.specErrors {
+		if e == msg {
+			return
+		}
+	}
+	x.V.specErrors = append(x.V.specErrors, msg)
+	o := &Oblig{Name: fk + "#contract:" + ne.Name, Func: fk, Kind: "contract", Status: "failed", Src: ne.Src,
+		Output: "contract clause cannot be evaluated against the current code: " + err.Error()}
+	if root.c != nil {
+		o.Props = root.c.Props
+	}
+	root.obligs = append(root.obligs, o)
 }
